@@ -21,8 +21,9 @@ RULE = ("rules: case = (nodes with type/output/name, edge set, registry), each u
         "distinct = distinct tuple; non-trivial = at least one documented rule is violated under some flag set. "
         "outputs: case = (library function, argument circuit)")
 ASSUMPTIONS = [
-    "UNSPECIFIED (either outcome accepted): unloaded=True on a bb_input pin; undriven=True on a bb_input pin "
-    "(the statement says 'undriven gates'; a pin is not a gate)",
+    "UNSPECIFIED (either outcome accepted): unloaded=True on a bb_input pin (it can never have a load)",
+    "undriven=True covers every node kind that needs a driver: buf, not, bb_input and the multi-input gates "
+    "(lint's docstring: 'Fail on undriven node')",
 ]
 
 SUPPORTED = ["buf", "and", "or", "xor", "not", "nand", "nor", "xnor", "0", "1", "x", "input", "bb_input", "bb_output"]
@@ -84,10 +85,8 @@ def reference(nodes, edges, registry, unloaded, undriven, single):
                 if nodes[l][0] != "buf":
                     must = True
         if undriven and not fanin[n]:
-            if t in GATE1 + MULTI:
+            if t in GATE1 + MULTI + ("bb_input",):
                 must = True
-            elif t == "bb_input":
-                unspec = True
         if single and t in MULTI and len(fanin[n]) < 2:
             must = True
         if unloaded and not out and not fanout[n]:
@@ -129,7 +128,7 @@ def graphs(n, types):
             es = [p for b, p in enumerate(pairs) if (m >> b) & 1]
             if n == 3 and len(es) > 3:
                 continue
-            for outs in itertools.product([False, True], repeat=n):
+            for outs in itertools.product([False, True, None] if n < 3 else [False, True], repeat=n):
                 for names in names_opts:
                     for ri, reg in enumerate(REGS):
                         yield ts, es, outs, names, ri
@@ -140,10 +139,12 @@ def build(ts, es, outs, names, ri):
 
     c = cg.Circuit(name="top")
     for nm, t, o in zip(names, ts, outs):
-        if t is None:
-            c.graph.add_node(nm, output=o)
-        else:
-            c.graph.add_node(nm, type=t, output=o)
+        attrs = {}
+        if t is not None:
+            attrs["type"] = t
+        if o is not None:
+            attrs["output"] = o
+        c.graph.add_node(nm, **attrs)
     for i, j in es:
         c.graph.add_edge(names[i], names[j])
     for inst, (ins, ou) in REGS[ri].items():
@@ -155,7 +156,7 @@ def check_rules_case(acc, ts, es, outs, names, ri, only_flags=None):
     import circuitgraph as cg
 
     c = build(ts, es, outs, names, ri)
-    nodes = {nm: (t, o) for nm, t, o in zip(names, ts, outs)}
+    nodes = {nm: (t, bool(o)) for nm, t, o in zip(names, ts, outs)}
     edges = {(names[i], names[j]) for i, j in es}
     nontriv = False
     for ff, unl, und, sing in (only_flags or FLAGS):
@@ -207,6 +208,8 @@ def corpus():
     for I in (1, 2):
         for gates in space.circuits(I, 2, max_arity=3):
             yield space.to_desc(I, gates)
+    for gates in space.circuits(2, 1, max_arity=2):
+        yield space.to_desc(2, gates, outputs="all")
 
 
 def producers():
@@ -243,11 +246,14 @@ def _compose(c):
     conn = {}
     for i in sorted(c.inputs()):
         p.add(f"pi_{i}", "input")
-        conn[i] = f"pi_{i}"
+        p.add(f"pg_{i}", "and", fanin=[f"pi_{i}"])
+        conn[i] = f"pg_{i}"
     for o in sorted(c.outputs() - c.inputs()):
         p.add(f"po_{o}", "buf", output=True)
         conn[o] = f"po_{o}"
     p.add_subcircuit(c, "u", conn)
+    for o in sorted(c.outputs() & c.inputs()):
+        p.add(f"po_{o}", "buf", fanin=[f"u_{o}"], output=True)
     return p
 
 
